@@ -98,6 +98,7 @@ def stepCodec (line : String) : Option String :=
   | "vdec32" :: h :: _ => (unhex h).map fun d => let r := vdecode32 d; "val " ++ toString r.1 ++ " " ++ toString r.2
   | "vdec64" :: h :: _ => (unhex h).map fun d => let r := vdecode64 d; "val " ++ toString r.1 ++ " " ++ toString r.2
   | "vlenp" :: h :: _ => (unhex h).map fun d => "n " ++ toString (vlenPacked d)
+  | "vlenpbig" :: h :: _ => (unhex h).map fun d => "n " ++ toString (vlenPacked (d ++ List.replicate 12 0))   -- zero pages follow
   | "fix32" :: v :: _ => v.toNat?.map fun v => "bytes " ++ hex (fixed32 (v % 4294967296))
   | "fix64" :: v :: _ => v.toNat?.map fun v => "bytes " ++ hex (fixed64 v)
   | "dfix32" :: h :: _ => (unhex h).map fun d => "val " ++ toString (dec32 d)
@@ -176,6 +177,20 @@ def stepMerger (s : St) (line : String) : Option (St × String) :=
         match parsePairs (args.filter fun a => !a.contains '=') with
         | some es => some ({ s with mergers := s.mergers.insert i (mg, ds, tabs ++ [es]) }, "ok")
         | none => none
+      | none => none
+    | none => none
+  | "m.write" :: mid :: args =>
+    -- mtbl_source_write(mtbl_merger_source(m), fresh writer): the merged content through `W.writeFrom`, then the writer is finished
+    match mid.toNat? with
+    | some m => match s.mergers[m]? with
+      | some (mg, ds, tabs) =>
+        let c := mkMCfg s mg ds
+        let content := match mergerIter c tabs .iter [] with
+          | some it => drainMerger c it ((tabs.map List.length).sum + 1) []
+          | none => []
+        let cfg : WCfg := { compression := 0, blockSize := kvNat args "bs" 32, interval := kvNat args "ri" 2, minBlockSize := 16 }
+        let r := (W.new cfg 0).writeFrom content
+        some (s, (if r.1 == .success then "ok " else "fail ") ++ hex r.2.finish)
       | none => none
     | none => none
   | "m.it" :: mid :: iid :: kargs =>
@@ -569,6 +584,24 @@ def stepVerify (s : St) (line : String) : Option (St × String) :=
         | none => some (s, "read 0 - abort")
         | some none => some (s, "read 0 - eof")
         | some (some it) =>
+          -- optional: first position the iterator in another block (warm=<key>: seek + one next), then seek=<key>; only
+          -- the entries returned after that last seek are counted
+          let warmed : Option RIter := match (kv args "warm").bind unhex with
+            | none => some it
+            | some wk => match rSeek it wk with
+              | none => none
+              | some it1 => match rNext s.fixF1 it1 with
+                | none => none
+                | some (_, it2) => some it2
+          match warmed with
+          | none => some (s, "read 0 - abort")
+          | some it =>
+          let sought : Option RIter := match (kv args "seek").bind unhex with
+            | none => some it
+            | some sk => rSeek it sk
+          match sought with
+          | none => some (s, "read 0 - abort")
+          | some it =>
           let (n, last, how) := drainReader s.fixF1 it 0 none
           some (s, "read " ++ toString n ++ " " ++ (match last with | some k => hex k | none => "-") ++ " " ++ how)
     | none => none
@@ -939,7 +972,7 @@ def stepRes (s : St) (line : String) : Option (St × String) :=
   | ["res.begin"] => some ({ s with res := { fixF6 := s.res.fixF6, fixF10 := s.res.fixF10 }, resLast := {} }, "ok")
   | ["cfg", "fixF6", v] => some ({ s with res := { s.res with fixF6 := v == "1" } }, "ok")
   | ["cfg", "fixF10", v] => some ({ s with res := { s.res with fixF10 := v == "1" } }, "ok")
-  | ["res.table", t, n, _, _] => match t.toNat?, n.toNat? with
+  | "res.table" :: t :: n :: _ :: _ :: _ => match t.toNat?, n.toNat? with   -- optional: codec, value length (content only)
     | some t, some n => upd s (.table t n) "ok"
     | _, _ => none
   | ["res.bad", t] => t.toNat?.bind fun t => upd s (.bad t) "ok"
